@@ -4,9 +4,9 @@
 package regmodel
 
 import (
-	"encoding/base64"
 	"crypto/sha256"
 	"crypto/sha512"
+	"encoding/base64"
 	"encoding/hex"
 	"encoding/json"
 	"fmt"
@@ -124,7 +124,7 @@ func newRepo() *Repo {
 
 // Write is a journal entry.
 type Write struct {
-	Seq    int // exchange number
+	Seq    int    // exchange number
 	Kind   string // blob, manifest, tag, mount, del-manifest, del-tag, del-blob
 	Repo   string
 	Digest string
@@ -133,29 +133,29 @@ type Write struct {
 
 // Knobs select behaviour, all within the distribution spec unless noted.
 type Knobs struct {
-	Mount          int  // 0 granted when source has the blob, 1 declined with 202+Location, 2 unsupported (202 upload as if no mount)
-	AnonymousMount bool // grant a mount without "from" when any repository holds the blob
-	ChunkMin       int  // OCI-Chunk-Min-Length announced on upload POST (0: none)
-	LocAbsolute    bool // absolute upload Location
-	LocQuery       bool // Location carries a query string
-	LocChanges     bool // Location changes on every PATCH
-	PartialEvery   int  // >0: every n-th PATCH accepts only part of the chunk (202 with a shorter Range)
-	Partial416     bool // partial acceptance reported as 416 with Range/Location on the *next* out-of-order chunk instead
-	Early201       bool // PATCH of the last chunk answers 201 (ECR style)
-	RefuseMonoPut  bool // PUT with a body on a fresh session is refused with 400 (forces chunked fall-back)
-	TagDelete      bool // DELETE of a tag supported
-	Referrers      bool // referrers API present
-	ReferrersPage  int  // >0: page size of the referrers API
-	TagPage        int  // >0: server-side maximum page size of tags/list
-	NoHeadDigest   bool // HEAD/GET of a manifest without Docker-Content-Digest
-	Strict         bool // reject manifests whose content references are missing
-	BlobRedirect   string // non-empty: blob GETs are answered with 307 to this host
-	BlobRedirectScheme string // scheme of the redirect (default https)
+	Mount                 int    // 0 granted when source has the blob, 1 declined with 202+Location, 2 unsupported (202 upload as if no mount)
+	AnonymousMount        bool   // grant a mount without "from" when any repository holds the blob
+	ChunkMin              int    // OCI-Chunk-Min-Length announced on upload POST (0: none)
+	LocAbsolute           bool   // absolute upload Location
+	LocQuery              bool   // Location carries a query string
+	LocChanges            bool   // Location changes on every PATCH
+	PartialEvery          int    // >0: every n-th PATCH accepts only part of the chunk (202 with a shorter Range)
+	Partial416            bool   // partial acceptance reported as 416 with Range/Location on the *next* out-of-order chunk instead
+	Early201              bool   // PATCH of the last chunk answers 201 (ECR style)
+	RefuseMonoPut         bool   // PUT with a body on a fresh session is refused with 400 (forces chunked fall-back)
+	TagDelete             bool   // DELETE of a tag supported
+	Referrers             bool   // referrers API present
+	ReferrersPage         int    // >0: page size of the referrers API
+	TagPage               int    // >0: server-side maximum page size of tags/list
+	NoHeadDigest          bool   // HEAD/GET of a manifest without Docker-Content-Digest
+	Strict                bool   // reject manifests whose content references are missing
+	BlobRedirect          string // non-empty: blob GETs are answered with 307 to this host
+	BlobRedirectScheme    string // scheme of the redirect (default https)
 	ManifestPutNoLocation bool
-	DeleteBlob     bool
-	NoRangeOnJSON  bool // manifests and listings ignore Range (as most real registries do)
-	PutKeepsThenFails int // >0: the first PUT carrying a body stores that many bytes of it in the session and fails with 502 (a proxy cut the transfer)
-	MountDeclineFrom string // mounts whose source repository starts with this prefix are declined (per-repository permissions)
+	DeleteBlob            bool
+	NoRangeOnJSON         bool   // manifests and listings ignore Range (as most real registries do)
+	PutKeepsThenFails     int    // >0: the first PUT carrying a body stores that many bytes of it in the session and fails with 502 (a proxy cut the transfer)
+	MountDeclineFrom      string // mounts whose source repository starts with this prefix are declined (per-repository permissions)
 }
 
 // Reg is one registry host.
@@ -339,8 +339,10 @@ func (g *Reg) manifests(req *simnet.Request, repo, ref string, q url.Values) *si
 			return resp(400, "DIGEST_INVALID")
 		}
 		var probe struct {
-			MediaType string          `json:"mediaType"`
-			Subject   *struct{ Digest string `json:"digest"` } `json:"subject"`
+			MediaType string `json:"mediaType"`
+			Subject   *struct {
+				Digest string `json:"digest"`
+			} `json:"subject"`
 		}
 		if err := json.Unmarshal(raw, &probe); err != nil {
 			return resp(400, "MANIFEST_INVALID")
@@ -778,9 +780,13 @@ func (g *Reg) referrers(req *simnet.Request, repo, dig string, q url.Values) *si
 			var p struct {
 				MediaType    string `json:"mediaType"`
 				ArtifactType string `json:"artifactType"`
-				Config       *struct{ MediaType string `json:"mediaType"` } `json:"config"`
-				Subject      *struct{ Digest string `json:"digest"` } `json:"subject"`
-				Annotations  map[string]string `json:"annotations"`
+				Config       *struct {
+					MediaType string `json:"mediaType"`
+				} `json:"config"`
+				Subject *struct {
+					Digest string `json:"digest"`
+				} `json:"subject"`
+				Annotations map[string]string `json:"annotations"`
 			}
 			if json.Unmarshal(mf.Raw, &p) != nil || p.Subject == nil || p.Subject.Digest != dig {
 				continue
@@ -831,12 +837,12 @@ func (g *Reg) referrers(req *simnet.Request, repo, dig string, q url.Values) *si
 
 // Ref is a content reference found in a manifest body.
 type Ref struct {
-	Digest   string
-	Size     int64
-	Manifest bool // index entry that is itself a manifest
-	External bool // layer with urls
-	Inline   bool // descriptor carries data
-	Field    string
+	Digest    string
+	Size      int64
+	Manifest  bool // index entry that is itself a manifest
+	External  bool // layer with urls
+	Inline    bool // descriptor carries data
+	Field     string
 	MediaType string
 }
 
@@ -860,7 +866,9 @@ func ContentRefs(raw []byte) []Ref {
 		Layers    []descJ `json:"layers"`
 		Blobs     []descJ `json:"blobs"`
 		Manifests []descJ `json:"manifests"`
-		FSLayers  []struct{ BlobSum string `json:"blobSum"` } `json:"fsLayers"`
+		FSLayers  []struct {
+			BlobSum string `json:"blobSum"`
+		} `json:"fsLayers"`
 	}
 	if json.Unmarshal(raw, &p) != nil {
 		return nil
